@@ -64,6 +64,18 @@ Proof.
   - intros u [<-|[]]. right. right. now left.
 Qed.
 
+Lemma contains_snippet_ok all x src rule n1 n2 neg vals tp : ok x (contains_snippet all x src rule n1 n2 neg vals tp).
+Proof.
+  intros env rest Hx Hrest. unfold contains_snippet. cbn [sn_du sn_value_uses app] in *.
+  apply safe_cons. split; [intros u [<-|[]]; exact Hx|]. apply safe_cons. split; [intros u [<-|[]]; now left|].
+  apply safe_cons. split; [intros u [<-|[]]; right; now left|]. apply safe_cons. split; [intros u []|].
+  apply safe_cons. split; [intros u [<-|[<-|[]]]; [now left|right; now left]|].
+  apply safe_cons. split; [intros u [<-|[]]; right; right; now left|]. apply safe_cons. split; [intros u [<-|[]]; now left|].
+  apply Hrest.
+  - intros u Hu. do 7 right. exact Hu.
+  - intros u [<-|[]]. now left.
+Qed.
+
 (* the constraints of a branch, each followed by its trace binding *)
 Lemma branch_safe x : forall branch i env rest, In x env -> Forall (ok x) branch ->
   (forall env', incl env env' -> (forall j, i <= j < i + List.length branch -> In (result_var j) env') -> safe_from env' rest = true) ->
